@@ -30,6 +30,7 @@ def harnesses(tier, seed):
          # `_ => assert!(false)` is the "kind of instruction changed" arm: must be dead
          "allow_unreachable": ["assertion failed: false"]},
         {"name": MOD + "u9_targets_and_count_temps", "function": "bc::CodeGen::{record_branch_targets, count_temps}",
-         "clause": "is_target marks exactly the branch targets; count_temps == 1 + largest temporary index used",
-         "properties": ["C02"], "bounded_by": "a 3-instruction program shape", "complete_over": "all operands", "timeout": t},
+         "clause": "is_target marks exactly the targets of BOTH branch kinds; count_temps == 1 + largest temporary index used by ANY instruction kind (Add/Sub/Mul/Copy)",
+         # C06: Program::temps sizes the temporaries array behind OpsContext; the op contracts of u5 assume every Tmp index < temps
+         "properties": ["C02", "C06"], "bounded_by": "a 3-instruction program shape (arithmetic kind and branch kind symbolic)", "complete_over": "all operands", "timeout": t},
     ]
